@@ -333,11 +333,65 @@ def derived_case(rng):
                 nontrivial=True, op="derived-sync", triggers=[])
 
 
+def stale_case(rng):
+    """a block that carries a pending sign is dropped (multiply_diagonal with a vector lacking its charge,
+    align_axes, drop_missing_blocks); after sync_charges the remaining legs have size one and are squeezed.
+    The sign entry left behind by the dropped block must not be applied to another block: the value after
+    the squeeze equals the value before it."""
+    import symmray as sr
+
+    sym = rng.choice(["Z2", "U1", "Z2Z2", "Z4"])
+    c0 = gen.py_combine(sym, [])
+    c1 = {"Z2": 1, "U1": rng.choice([1, -1, 2]), "Z4": rng.choice([1, 2, 3]), "Z2Z2": rng.choice([(0, 1), (1, 0), (1, 1)])}[sym]
+    i = sr.BlockIndex({c0: 1, c1: 1}, dual=False)
+    cls, kw = gen.array_class(sym, True, sym != "Z4" and rng.random() < 0.7)
+    val0, val1 = rng.randint(1, 5), rng.randint(1, 5)
+    kept = (c0, c0)
+    dropped = (c1, c1)
+    x = cls(indices=(i, i.conj()), charge=c0, blocks={kept: np.array([[float(val0)]]), dropped: np.array([[float(val1)]])}, **kw)
+    route = rng.choice(["multiply_diagonal", "align_axes", "drop_missing_blocks"])
+    env = {"x": x}
+    steps = [{"out": ["p"], "op": "phase_sector", "in": ["x"], "params": {"sector": ser.enc_sector(dropped)}}]
+    orc = None
+    res = []
+    try:
+        if route == "multiply_diagonal":
+            env["v"] = sr.BlockVector({c0: np.array([1.0])})
+            steps += [{"out": ["d"], "op": "multiply_diagonal", "in": ["p", "v"], "params": {"axis": 1}},
+                      {"out": ["s"], "op": "sync_charges", "in": ["d"], "params": {}},
+                      {"out": ["z"], "op": "squeeze", "in": ["s"], "params": {"axis": None}}]
+            res, env2 = impl.run_prog(env, steps)
+            z = env2.get("z")
+        else:
+            res, env2 = impl.run_prog(env, steps)
+            p = env2["p"]
+            if route == "align_axes":
+                w = cls(indices=(i,), charge=c0, blocks={(c0,): np.array([1.0])}, **kw)
+                d, _ = sr.align_axes(p, w, ((1,), (0,)))
+            else:
+                d = p.copy()
+                d.blocks[dropped] = np.zeros((1, 1))
+                d.drop_missing_blocks()
+            z = d.sync_charges().squeeze()
+        if z is not None:
+            got = complex(z.item()) if z.blocks else 0.0
+            if got != complex(val0):
+                orc = (f"a block carrying a pending sign was dropped by {route}; after sync_charges().squeeze() the sign "
+                       f"entry it left behind is applied to another block: value {got} instead of {complex(val0)}")
+    except Exception as e:  # noqa
+        orc = f"{route} / sync_charges / squeeze raised {type(e).__name__}: {e}"
+    case = {"kind": "prog", "env": {k: ser.enc_val(v) for k, v in env.items()}, "steps": steps}
+    return dict(case=case, impl=stream.strip_py(res), oracle=orc,
+                meta=dict(sym=sym, fermi=True, kind="stale-sign", route=route, pending=True),
+                nontrivial=True, op="stale-sign-rekey", triggers=["stale_phase_key_rekeyed"])
+
+
 def gen_cases(seed, chunk, n, tier):
     rng = random.Random(seed * 7919 + chunk * 104729 + 9)
     out = [hermitian_case(rng) for _ in range(max(1, n // 8))]
     out += [solve_case(rng) for _ in range(max(1, n // 8))]
     out += [derived_case(rng) for _ in range(max(1, n // 6))]
+    out += [stale_case(rng) for _ in range(max(1, n // 10))]
     for _ in range(n):
         env0, steps, results, meta = progs.rand_program(rng, fermi=True, length=rng.randint(1, 5), pending=True)
         # rebuild python env from the encoded one is avoided: regenerate by replaying on decoded arrays
